@@ -180,17 +180,6 @@ static std::string pathRecord(State &S, std::map<std::string, int> &setTable, st
   o += ",\"events\":[";
   for (size_t i = 0; i < S.events.size(); i++) { if (i) o += ","; o += S.events[i]; }
   o += "]";
-  if (!CFG.traceRegions.empty()) {
-    o += ",\"reads\":{"; bool f = true;
-    for (auto &kv : S.readBits) {
-      if (!f) o += ","; f = false;
-      o += jstr(S.regions[kv.first].name) + ":[";
-      bool f2 = true;
-      for (size_t i = 0; i < 1024;) { if (!kv.second[i]) { i++; continue; } size_t j = i; while (j < 1024 && kv.second[j]) j++; if (!f2) o += ","; f2 = false; o += "[" + std::to_string(i) + "," + std::to_string(j) + "]"; i = j; }
-      o += "]";
-    }
-    o += "}";
-  }
   if (!CFG.reportRegion.empty())
     for (auto &R : S.regions) if (R.name == CFG.reportRegion) {
       { int64_t ml = -1; int64_t mh = R.rd().nulAfter(0, &ml); o += ",\"nul\":[" + std::to_string(ml) + "," + std::to_string(mh) + "]"; }
@@ -243,6 +232,7 @@ int main(int argc, char **argv) {
     if (!setupCell(cell, S, e)) { O << ",\"error\":" << jstr(e) << "}"; continue; }
     Engine E;
     SeenStates.clear();
+    cellTrace() = CellTrace();
     E.work.push_back(std::move(S));
     int64_t npaths = 0, ndedup = 0; bool budget = false;
     std::map<std::string, int> recs; std::vector<std::string> order;
@@ -259,6 +249,19 @@ int main(int argc, char **argv) {
       }
       E.done.clear();
       if (npaths > CFG.maxPaths) { budget = true; break; }
+    }
+    if (!CFG.traceRegions.empty()) {
+      O << ",\"reads\":{"; bool f = true;
+      for (auto &kv : cellTrace().reads) {
+        if (!f) O << ","; f = false;
+        O << jstr(kv.first) << ":[";
+        bool f2 = true;
+        for (size_t i = 0; i < 1024;) { if (!kv.second[i]) { i++; continue; } size_t j = i; while (j < 1024 && kv.second[j]) j++; if (!f2) O << ","; f2 = false; O << "[" << i << "," << j << "]"; i = j; }
+        O << "]";
+      }
+      O << "},\"trace\":["; f = true;
+      for (auto &e : cellTrace().events) { if (!f) O << ","; f = false; O << e; }
+      O << "]";
     }
     O << ",\"ndedup\":" << ndedup << ",\"npaths\":" << npaths << ",\"budget\":" << (budget ? "true" : "false") << ",\"paths\":[";
     for (size_t i = 0; i < order.size(); i++) { if (i) O << ","; O << "\n " << order[i]; }
